@@ -22,7 +22,14 @@ TEMPLATES = {
     # a Watch whose condition becomes true at tick 6: a cancel may arrive before, in the tick of, or after activation
     "watch_later": "Mark: M1\nWatch: In1 > 0\n    Mark: W1\nMark: M2\nWait: 5s\n",
 }
-IN1 = {"watch_later": [6, 99]}
+THOROUGH_TEMPLATES = {
+    "alarm": "Mark: M1\nAlarm: In1 > 0\n    Mark: A1\nMark: M2\nWait: 5s\n",
+    "two_cmds": "CmdA\nCmdB\nMark: M1\nWait: 5s\n",          # CmdA and CmdB are not mutually exclusive: both run side by side
+    "wait_in_block": "Block: B\n    Mark: M1\n    Wait: 5s\n    Mark: M2\n    End block\nMark: M3\n",
+    "wait_in_macro": "Macro: X\n    Mark: M1\n    Wait: 5s\n    Mark: M2\nCall macro: X\nMark: M3\n",
+    "uod_in_watch": "Mark: M1\nWatch: In1 > 0\n    CmdA\n    Mark: W1\nMark: M2\nWait: 5s\n",
+}
+IN1 = {"watch_later": [6, 99], "alarm": [3, 99], "uod_in_watch": [2, 99]}
 N = 12
 
 
@@ -35,9 +42,9 @@ def _observable(sc):
 
 def harness(sym):
     t = sym.shard["template"]
-    pc = TEMPLATES[t]
+    pc = TEMPLATES[t] if t in TEMPLATES else THOROUGH_TEMPLATES[t]
     kind = sym.shard["kind"]
-    durations = {"CmdA": sym.int("dur_CmdA", 4, 8)} if "CmdA" in pc else {}
+    durations = {c: sym.int(f"dur_{c}", 4, 8) for c in ("CmdA", "CmdB", "CmdC") if c in pc}
     ev_tick = sym.int("ev_tick", 1, N - 2)
     sym.shard["in1"] = list(IN1.get(t, (0, 0)))
     sc = run_scenario(sym, t, N, pcode=pc, durations=dict(durations), event=(kind, ev_tick), collect_runlog=True)
@@ -63,13 +70,25 @@ def harness(sym):
             bad = "Paused" if name.startswith("Pause") else "Holding"
             sym.check(sc.states[te] != bad, f"cancel-timed-{bad.lower()}-did-not-end",
                       f"cancel of {name} accepted at tick {te} but System State after that tick is {sc.states[te]}")
-        elif name == "CmdA":
-            finals = [x for x in sc.uod if x[1] == "CmdA" and x[3] == "final"]
-            execs_after = [x for x in sc.uod if x[1] == "CmdA" and x[3] == "exec" and x[0] >= te]
-            inits = [x for x in sc.uod if x[1] == "CmdA" and x[3] == "init"]
+        elif name in ("CmdA", "CmdB", "CmdC"):
+            finals = [x for x in sc.uod if x[1] == name and x[3] == "final"]
+            execs_after = [x for x in sc.uod if x[1] == name and x[3] == "exec" and x[0] >= te]
+            inits = [x for x in sc.uod if x[1] == name and x[3] == "init"]
             # an instance that was initialised is finalised exactly once; a command cancelled before it started has no instance
-            sym.check(len(finals) == len(inits), "cancel-uod-not-finalized-once", f"cancel of CmdA at tick {te}: init calls {inits}, finalize calls {finals}")
-            sym.check(not execs_after, "cancel-uod-executed-after-cancel", f"CmdA executed after its cancel at tick {te}: {execs_after}")
+            sym.check(len(finals) == len(inits), "cancel-uod-not-finalized-once", f"cancel of {name} at tick {te}: init calls {inits}, finalize calls {finals}")
+            sym.check(not execs_after, "cancel-uod-executed-after-cancel", f"{name} executed after its cancel at tick {te}: {execs_after}")
+            others = [c for c in ("CmdA", "CmdB", "CmdC") if c in pc and c != name]
+            if others:
+                # the cancel applies to the targeted command only: the other commands run as they do without the request
+                base = run_scenario(sym, t, N, pcode=pc, durations=dict(durations), event=("none", None), collect_runlog=False)
+                for c in others:
+                    mine = [(tk, ev2) for (tk, n2, _i, ev2) in sc.uod if n2 == c]
+                    ref = [(tk, ev2) for (tk, n2, _i, ev2) in base.uod if n2 == c]
+                    sym.check(mine == ref, "cancel-uod-affected-other-command", f"cancel of {name} at tick {te}: callbacks of {c} are {mine}, without the request {ref}")
+        elif name.startswith("Alarm"):
+            ran = [i for i, m in enumerate(sc.marks_by_tick) if "A1" in m]
+            first_after = [i for i in range(te, len(sc.marks_by_tick)) if sc.marks_by_tick[i].count("A1") > (sc.marks_by_tick[te - 1].count("A1") if te > 0 else 0)]
+            sym.check(not first_after, "cancel-alarm-body-ran", f"Alarm cancelled (offered, accepted) before tick {te} but its body ran (again) at tick {first_after[:1]}; A1 marks first at {ran[:1]}")
         elif name.startswith("Watch"):
             ran = [i for i, m in enumerate(sc.marks_by_tick) if "W1" in m]
             # the cancel was offered and accepted before tick te ran: the body must not start in tick te or later
@@ -94,7 +113,8 @@ def _cls(tgt):
 
 
 def _shards(tier):
-    return [{"template": t, "kind": k} for t in TEMPLATES for k in ("cancel", "force")]
+    ts = list(TEMPLATES) + (list(THOROUGH_TEMPLATES) if tier != "quick" else [])
+    return [{"template": t, "kind": k} for t in ts for k in ("cancel", "force")]
 
 
 OBLIGATIONS = [Obligation(
@@ -107,7 +127,7 @@ OBLIGATIONS = [Obligation(
              "openpectus.engine.internal_commands_impl:PauseEngineCommand.cancel", "openpectus.engine.internal_commands_impl:HoldEngineCommand.cancel"],
     symbolic="request tick (1..10), index of the targeted run-log item among those reported at that tick or an unknown id, UOD command duration 4..8 iterations",
     bounds={"quick": "7 templates (long Wait, timed Pause, timed Hold, long UOD command, Watch whose condition never holds, Watch whose condition becomes true at tick 6, untimed Pause) x {cancel, force}, 12 ticks, one request",
-            "thorough": "same (the space is exhausted in the quick tier)"},
+            "thorough": "+ 5 templates: re-arming Alarm, two UOD commands running side by side (the other one must be unaffected), Wait inside a block / a macro, UOD command inside a Watch"},
     assumptions=["requests are issued between ticks; one request per run", "'offered' = the cancellable/forcible flag of the item in the run log produced immediately before the request",
                  "'changes nothing' is judged on marks, System State, block events, UOD callbacks, hardware writes",
                  "instructions awaiting a threshold are not shown in the run log and therefore cannot be targeted (outside this check)",
